@@ -15,6 +15,7 @@ from .. import runspace, space
 from ..common import Check
 
 LEVEL = "model_checking"
+RULE = ('cases = ProgramSpace.tla vectors with queues of 2..3 codemods run as one batch and as a chain; every case is non-trivial (each queue holds codemods that trigger on the program); distinct = distinct vectors')
 
 
 def _result_view(rep, cid):
